@@ -62,10 +62,13 @@ const (
 
 	KOverflow = "overflow" // park the reader and create N entries in directory P (more than the kernel queue holds)
 
-	KSync  = "sync"  // sentinel: wait until everything so far is delivered, compare
-	KPlug  = "plug"  // park the reader goroutine in a channel send
-	KPoll  = "poll"  // non-blocking receive of up to N events (bursty consumer)
-	KFdchk = "fdchk" // compare kernel marks with the model (implies sync)
+	KSync   = "sync"  // sentinel: wait until everything so far is delivered, compare
+	KPlug   = "plug"  // park the reader goroutine in a channel send
+	KPause  = "pause" // the consumer stays away for N milliseconds (events may be pending)
+	KRecv   = "recv"  // blocking receive of exactly N events (bounded by what the model expects)
+	KAddNow = "add!"  // Watcher.Add(P) while events may still be pending (inside a burst)
+	KPoll   = "poll"  // non-blocking receive of up to N events (bursty consumer)
+	KFdchk  = "fdchk" // compare kernel marks with the model (implies sync)
 )
 
 type Step struct {
@@ -79,9 +82,14 @@ func (s Step) String() string {
 	switch s.K {
 	case KRename, KLink, KSymlink:
 		return fmt.Sprintf("%s(%q,%q)", s.K, string(s.P), string(s.Q))
+	case KAdd:
+		if s.N != 0 {
+			return fmt.Sprintf("add(%q,ops=%d)", string(s.P), s.N)
+		}
+		return fmt.Sprintf("add(%q)", string(s.P))
 	case KWrite, KTrunc, KChmod, KHold, KOverflow:
 		return fmt.Sprintf("%s(%q,%d)", s.K, string(s.P), s.N)
-	case KRelease, KPoll, KXNew, KXClose:
+	case KRelease, KPoll, KXNew, KXClose, KPause, KRecv:
 		return fmt.Sprintf("%s(%d)", s.K, s.N)
 	case KXAdd, KXRemove:
 		return fmt.Sprintf("%s(%d,%q)", s.K, s.N, string(s.P))
